@@ -175,11 +175,12 @@ def twin_split(src, cond, order):
     return ['reached'] if interesting else []
 
 
-def _cell(s, c, o, sk, ck, tier, timeout=150):
+def _cell(s, c, o, sk, ck, tier, timeout=150, abandon=None):
     ctype = 'int' if ck == 'ints' else 'bool'
-    pre = ['len(src) == %d and len(cond) == %d and len(order) == %d' % (s, c, o), '0 <= abandon <= 2']
+    pre = ['len(src) == %d and len(cond) == %d and len(order) == %d' % (s, c, o),
+           '0 <= abandon <= 2' if abandon is None else 'abandon == %d' % abandon]
     return Cell(
-        name='split_%s_%s_s%d_c%d_o%d' % (sk, ck, s, c, o),
+        name='split_%s_%s_s%d_c%d_o%d%s' % (sk, ck, s, c, o, '' if abandon is None else '_ab%d' % abandon),
         sig='src: List[int], cond: List[%s], order: List[bool], abandon: int' % ctype,
         pre=pre,
         body='H.scen_split(src, cond, order, abandon, %r, %r)' % (sk, ck),
@@ -198,6 +199,9 @@ def cells(prop, tier):
                 out.append(_cell(s, c, o, sk, ck, 'quick'))
     out.append(_cell(3, 3, 4, 'iterator', 'callable', 'quick'))
     out.append(_cell(3, 3, 4, 'iterator', 'bools', 'quick'))
+    for ab in range(3):
+        out.append(_cell(5, 5, 4, 'iterator', 'bools', 'quick', timeout=400, abandon=ab))
+        out.append(_cell(5, 5, 4, 'list', 'callable', 'quick' if ab == 0 else 'thorough', timeout=400, abandon=ab))
     out.append(_cell(0, 2, 2, 'iterator', 'bools', 'quick'))
     out.append(_cell(2, 0, 2, 'list', 'bools', 'quick'))
     for kind in ('iterator', 'iterable', 'map'):
@@ -206,6 +210,8 @@ def cells(prop, tier):
     out.append(Cell(name='twin_split', sig='src: List[int], cond: List[bool], order: List[bool]',
                     pre=['len(src) == 3 and len(cond) == 3 and len(order) == 3'],
                     body='H.twin_split(src, cond, order)', expect='refute', timeout=60, family='split'))
+    if tier != 'thorough':
+        out = [c for c in out if c.tier == 'quick']
     if tier == 'thorough':
         for sk in SRC_KINDS:
             for ck in COND_KINDS:
